@@ -14,7 +14,7 @@ use crate::verif::collections::HashSet;
 use itertools::Itertools;
 
 use crate::{
-    constant::WORD_SIZE_BITS,
+    constant::{UNIFICATION_ROUND_LIMIT, WORD_SIZE_BITS},
     data::disjoint_set::DisjointSet,
     error::{
         container::Locatable,
@@ -67,6 +67,10 @@ pub fn unify(state: &mut TypeCheckerState, watchdog: &DynWatchdog) -> Result<()>
     #[cfg(smlxl_storage_layout_extractor_verif)]
     crate::verif::loop_enter(crate::verif::Site::Unify);
 
+    // The state of the forest at the start of the previous round, and the number of rounds.
+    let mut previous_sets = None;
+    let mut rounds = 0;
+
     // Then, we loop until we stop making progress.
     loop {
         #[cfg(smlxl_storage_layout_extractor_verif)]
@@ -80,7 +84,28 @@ pub fn unify(state: &mut TypeCheckerState, watchdog: &DynWatchdog) -> Result<()>
         // Create our stop condition.
         let mut made_progress = false;
 
-        for (ty_var, inferences) in forest.sets() {
+        // A round is a function of the forest alone, so if the previous round left the forest
+        // exactly as it found it then every later round would do the same. Cyclic evidence (a
+        // packed encoding whose span is the value itself) does that, or makes the forest grow
+        // without end; in both cases no further progress is possible, so whatever evidence
+        // is still unmerged at that point cannot be reconciled
+        let sets = forest.sets();
+        if previous_sets.as_ref() == Some(&sets) || rounds >= UNIFICATION_ROUND_LIMIT {
+            for (ty_var, inferences) in sets {
+                if let Some(conflict) = inferences
+                    .into_iter()
+                    .sorted_by_cached_key(fold_position)
+                    .reduce(|l, r| l.conflict_with(r, "Evidence could not be reconciled"))
+                {
+                    forest.set_data(&ty_var, InferenceSet::from([conflict]));
+                }
+            }
+            break;
+        }
+        previous_sets = Some(sets.clone());
+        rounds += 1;
+
+        for (ty_var, inferences) in sets {
             #[cfg(smlxl_storage_layout_extractor_verif)]
             crate::verif::tick(crate::verif::Site::Unify);
 
